@@ -108,7 +108,10 @@ impl<H: Hal, T: Transport> VirtIOInput<H, T> {
         write_config!(self.transport, Config, select, select as u8)?;
         write_config!(self.transport, Config, subsel, subsel)?;
         let size: u8 = read_config!(self.transport, Config, size)?;
-        // Safe because config points to a valid MMIO region for the config space.
+        // The device chooses `size`, but the data area holds only `CONFIG_DATA_MAX_LENGTH` bytes.
+        if usize::from(size) > CONFIG_DATA_MAX_LENGTH {
+            return Err(Error::IoError);
+        }
         let size_to_copy = min(usize::from(size), out.len());
         for (i, out_item) in out.iter_mut().take(size_to_copy).enumerate() {
             *out_item = self
